@@ -108,7 +108,8 @@ CLAIMS = {
         "technique": "static analysis: table agreement between parser arms, decoder methods and assembler arms (syntax-tree extraction), interval interpretation of from_u32, pinned snapshot",
         "text": "Decides the codec pairing for all 70 operand kinds, 64 Operand variants, every typed decoder method and every enumerant/bit parameter list: "
                 "each (kind, variant, decoder method) triple has matching payload types and mutually inverse encodings, the five special kinds are intercepted, "
-                "instruction framing order/word count, string and 64-bit word layout. Structural necessary conditions of parse(assemble(x)) == x; the value equality itself is not computed.",
+                "instruction framing order/word count (also evaluated on real instruction values with concrete ids, 32/64-bit literals and ASCII / non-ASCII strings, with and without result "
+                "type and id), string and 64-bit word layout. Structural necessary conditions of parse(assemble(x)) == x; the value equality itself is not computed.",
         "design_ref": "DESIGN.md 3/C02", "note": TB + "; bitflags from_bits/bits; std from_le_bytes/from_utf8",
     },
     "C05": {
